@@ -207,3 +207,95 @@ _run_pairs = run
 def run(unit, em):
     _run_pairs(unit, em)
     run_whole(unit, em)
+
+
+# ---- clause `grow`: partition and block relation grow together; clause `detach`: a remove list is detached before it is freed
+def run_engine_pairs(unit, em):
+    from vfacts import must_pass_through
+    for fn in unit.functions:
+        if fn.body is None or 'explicit_lts_sim' not in fn.file:
+            continue
+        cfg = None
+        for c in fn.calls():
+            if c['k'] == 'CXXMemberCallExpr' and method_name(c) == 'push_back' and (root_path(c.get('obj')) or [''])[-1] == 'partition_':
+                # a block created while a relation already exists (a `split` call of relation_ occurs in the function)
+                splits = [s for s in fn.calls() if s['k'] == 'CXXMemberCallExpr' and method_name(s) == 'split' and (root_path(s.get('obj')) or [''])[-1] == 'relation_']
+                txt = unit.text(c, 50)
+                # blocks made by the splitting constructor (one argument is the parent Block) need the relation split;
+                # the initial blocks are made from plain state lists and the relation is initialised afterwards by init()
+                from_parent = False
+                a0 = strip(c['args'][0]) if c.get('args') else None
+                srcs = [a0]
+                if a0 is not None and a0['k'] == 'DeclRefExpr':
+                    v0 = var_table(fn).get(a0.get('d'))
+                    if v0 and is_node(v0['decl'].get('init')):
+                        srcs = [v0['decl']['init']]
+                for s0 in srcs:
+                    for x in walk(s0):
+                        if x['k'] == 'CXXConstructExpr' and any('Block' in unit.ty(strip(a) or a) for a in x.get('args') or []):
+                            from_parent = True
+                if not from_parent:
+                    continue
+                if not splits:
+                    em.violation(c, txt, 'a block split off its parent is added to the partition but the block relation is never split in this function: block indices beyond the size of the relation are then used as rows/columns', 'grow')
+                    continue
+                cfg = cfg or fn.cfg()
+                pos = cfg.locate(c) if cfg else None
+                if pos is None:
+                    em.unknown(c, txt, 'CFG position not found', 'grow')
+                    continue
+                sid = {id(x) for s in splits for x in walk(s)}
+                ok, _ = must_pass_through(cfg, pos, None, lambda n: id(n) in sid)
+                if ok:
+                    em.ok(c, txt, 'followed on every path by relation_.split(..): partition and relation keep the same number of blocks', 'grow')
+                else:
+                    em.violation(c, txt, 'a block is added to the partition but the block relation is not split on every path afterwards: block indices beyond the size of the relation are then used as rows/columns', 'grow')
+        # detach: `r = B->remove_[l]` ... `r->unsafeRelease(..)` needs `B->remove_[l] = nullptr` in between
+        vt = var_table(fn)
+        for d, v in vt.items():
+            if v['kind'] != 'local' or not is_node(v['decl'].get('init')):
+                continue
+            i = strip(v['decl']['init'])
+            if i is None or not ((i['k'] == 'CXXOperatorCallExpr' and i.get('op') == '[]') or i['k'] == 'ArraySubscriptExpr'):
+                continue
+            sub = i.get('args') or i.get('ch')
+            B = member_of(sub[0], 'remove_')
+            if B is None:
+                continue
+            rel = [c for c in fn.calls() if c['k'] == 'CXXMemberCallExpr' and method_name(c) == 'unsafeRelease' and (strip(c.get('obj')) or {}).get('d') == d]
+            if not rel:
+                continue
+            cfg = cfg or fn.cfg()
+            pos = cfg.locate(v['node']) if cfg else None
+            bd = block_var(B)[0]
+            ltxt = unit.text(strip(sub[1]), 0)
+
+            def detaches(n, bd=bd, ltxt=ltxt):
+                if n['k'] not in ('BinaryOperator', 'CXXOperatorCallExpr') or n.get('op') != '=':
+                    return False
+                ops = n.get('ch') if n['k'] == 'BinaryOperator' else n.get('args')
+                l, r = strip(ops[0]), strip(ops[1])
+                if l is None or not ((l['k'] == 'CXXOperatorCallExpr' and l.get('op') == '[]') or l['k'] == 'ArraySubscriptExpr'):
+                    return False
+                s2 = l.get('args') or l.get('ch')
+                b2 = member_of(s2[0], 'remove_')
+                return b2 is not None and block_var(b2)[0] == bd and unit.text(strip(s2[1]), 0) == ltxt and r is not None and r['k'] in ('CXXNullPtrLiteralExpr', 'GNUNullExpr', 'IntegerLiteral')
+            txt = unit.text(v['node'], 60)
+            if pos is None:
+                em.unknown(v['node'], txt, 'CFG position not found', 'detach')
+                continue
+            rid = {id(x) for c in rel for x in walk(c)}
+            # everything that can enqueue into remove lists (split) must also come after the detach
+            ok, _ = must_pass_through(cfg, pos, lambda n: id(n) in rid or (n['k'] == 'CXXMemberCallExpr' and method_name(n) in ('split', 'fastSplit', 'enqueueToRemove')), detaches)
+            if ok:
+                em.ok(v['node'], txt, 'the list is detached from the block (slot set to null) before anything can append to it or it is released', 'detach')
+            else:
+                em.violation(v['node'], txt, 'the remove list taken here is released / the blocks are split while the slot of the block still points to it: later appends go to a list that is about to be freed (use after free, lost removals)', 'detach')
+
+
+_run_prev = run
+
+
+def run(unit, em):
+    _run_prev(unit, em)
+    run_engine_pairs(unit, em)
